@@ -127,6 +127,8 @@ class World:
 
     def apply(self, ev):
         kind, i, name = ev
+        if getattr(self, "buf", None) is not None:
+            return self.apply_buffered(ev)
         if kind == "send":
             f = self.fs[name] * (1.0 + 0.25 * i)
             self.gen.send((i, f.copy()))
@@ -149,6 +151,57 @@ class World:
                 if abs(dd - fd).max() > 1e-8 * sc or abs(dv - fv).max() > 1e-8 * sv:
                     self.msgs.append("get_f2x does not equal the change an add-on produces in the current step: "
                                      "dd=%s f2x*g=%s dv=%s f2xv*g=%s" % (dd, fd, dv, fv))
+
+
+class BufferedWorld(World):
+    """the caller keeps ONE force buffer (and one add-on buffer) and overwrites it before every send - the usual way a
+    simulation loop feeds the generator; F0 is handed over in the same buffer"""
+
+    def __init__(self, cfg):
+        self.cfg = cfg
+        self.ts, self.sys = make_solver(cfg)
+        n = self.sys["n"]
+        self.F0, self.fs, self.gs, d0, v0 = vectors(n)
+        self.ic = {"zero": dict(), "d0v0": dict(d0=d0, v0=v0), "static": dict(static_ic=True)}[cfg["start"]]
+        self.buf = self.F0.copy()
+        self.gbuf = np.zeros(n)
+        self.gen, self.d, self.v = self.ts.generator(NT, self.buf, **self.ic)
+        self.model = np.zeros((n, NT))
+        self.model[:, 0] = self.F0
+        self.cur = 0
+        self.msgs = []
+
+    def apply_buffered(self, ev):
+        kind, i, name = ev
+        if kind == "send":
+            f = self.fs[name] * (1.0 + 0.25 * i)
+            self.buf[:] = f
+            self.gen.send((i, self.buf))
+            self.buf[:] = -777.0  # the caller's buffer is the caller's: scribbling on it afterwards changes nothing
+            self.model[:, i] = f
+            self.cur = i
+        else:
+            self.gbuf[:] = self.gs[name]
+            self.gen.send((-1, self.gbuf))
+            self.gbuf[:] = 555.0
+            self.model[:, self.cur] += self.gs[name]
+
+
+def check_buffer(cfg):
+    """every history of REUSE_HISTS fed through one reused caller-side buffer: after every event d, v and the stored force
+    history are bit-identical to the run that hands over fresh arrays"""
+    msgs = []
+    for hi, hist in enumerate(REUSE_HISTS):
+        a, b = World(cfg), BufferedWorld(cfg)
+        for step, ev in enumerate(hist):
+            a.apply(ev)
+            b.apply(ev)
+            c = a.cur
+            if not (np.array_equal(a.d[:, : c + 1], b.d[:, : c + 1]) and np.array_equal(a.v[:, : c + 1], b.v[:, : c + 1]) and np.array_equal(a.ts._force, b.ts._force)):
+                msgs.append((hi, "history #%d, event %d %s: feeding the generator from one reused force buffer gives a different state than handing over fresh arrays "
+                             "(the generator keeps a reference to the caller's array)" % (hi, step + 1, list(ev))))
+                break
+    return msgs
 
 
 def build(cfg, hist):
@@ -370,6 +423,9 @@ def run_shard(sh):
     for pair, m in check_reuse(cfg):
         res.viol({"cfg": cfg, "reuse": pair}, m, kind="reuse")
     res.ev("%s/solver-reuse" % cfg["kind"], n=0)
+    for hi, m in check_buffer(cfg):
+        res.viol({"cfg": cfg, "buffer": hi}, m, kind="buffer")
+    res.ev("%s/reused-force-buffer" % cfg["kind"], n=0)
     if cfg["part"] not in ("rf", "rb"):
         for merge, m in check_interleaved(cfg):
             res.viol({"cfg": cfg, "interleaved": merge}, m, kind="interleaved")
@@ -385,6 +441,8 @@ def run_shard(sh):
 def replay(case):
     if "interleaved" in case:
         return [m for merge, m in check_interleaved(case["cfg"]) if merge == case["interleaved"]]
+    if "buffer" in case:
+        return [m for hi, m in check_buffer(case["cfg"]) if hi == case["buffer"]]
     if "reuse" in case:
         return [m for pair, m in check_reuse(case["cfg"]) if pair == case["reuse"]]
     w = build(case["cfg"], case["hist"])
